@@ -328,7 +328,7 @@ static void seq(_Bool tlv16) {
 	r2 = KSI_TlvElement_removeElement(P, xt, NULL);
 	__CPROVER_assert(r2 == KSI_OK, "tree api sequence: removing the only child succeeds");
 	__CPROVER_assert(KSI_TlvElementList_length(P->subList) == 0 && x->ref == 1, "tree api sequence: the view is empty again, the child released once");
-	r3 = KSI_TlvElement_serialize(P, o, sizeof(o), &len, 0);
+	r3 = KSI_TlvElement_serialize(P, o, spec_tlv_enc_hdr_len(P->ftlv.tag, 0), &len, 0);      /* a buffer of exactly the expected size */
 	__CPROVER_assert(r3 == KSI_OK, "tree api sequence: a childless element fits the length field and is therefore serialized (property: refused only when the content exceeds the length field)");
 	__CPROVER_assert(IMPLIES(r3 == KSI_OK, len == spec_tlv_enc_hdr_len(P->ftlv.tag, 0)), "tree api sequence: a childless element serializes as its header only");
 	__CPROVER_assert(IMPLIES(r3 == KSI_OK && kb < len && len <= 4, o[kb] == spec_tlv_enc_hdr_byte(P->ftlv.tag, P->ftlv.is_nc, P->ftlv.is_fwd, 0, kb)), "tree api sequence: header octets of the childless element (witness index)");
